@@ -75,6 +75,26 @@ def _cvc5(text, timeout_ms):
         os.unlink(path)
 
 
+def _z3_cli(text, timeout_ms, exe='/usr/bin/z3'):
+    """the Debian z3 4.8.12 binary: same logic, different instantiation heuristics (an independent second opinion)"""
+    if not os.path.exists(exe):
+        return 'unknown', 0.0, 'z3 cli absent'
+    with tempfile.NamedTemporaryFile('w', suffix='.smt2', delete=False) as f:
+        f.write(text)
+        path = f.name
+    t0 = time.time()
+    try:
+        p = subprocess.run([exe, 'smt.mbqi=false', '-T:%d' % max(1, timeout_ms // 1000), path], capture_output=True, text=True,
+                           timeout=timeout_ms / 1000.0 + 5)
+        out = (p.stdout or '').strip().splitlines()
+        r = out[0] if out else 'unknown'
+        return (r if r in ('unsat',) else 'unknown'), time.time() - t0, ''
+    except Exception as ex:
+        return 'unknown', time.time() - t0, repr(ex)[:100]
+    finally:
+        os.unlink(path)
+
+
 def solve_one(job):
     """job = (index, smt2 text, timeout_ms, use_cvc5) -> dict"""
     idx, text, timeout_ms, use_cvc5 = job
@@ -90,6 +110,11 @@ def solve_one(job):
             res.update(status='refuted', backend='z3-ematch(sat)')
             return res
         res['reason'] = why
+        r1, dt1, why1 = _z3_cli(text, timeout_ms)
+        res['seconds'] += dt1
+        if r1 == 'unsat':
+            res.update(status='discharged', backend='z3-4.8.12-ematch')
+            return res
         r2, dt2, why2 = _check(text, True, min(timeout_ms, 5000))
         res['seconds'] += dt2
         if r2 == 'unsat':
